@@ -10,6 +10,8 @@ Recipe kinds (all plain JSON):
         (unregistered attributes/types allowed); T is a text recipe (see render())
   {"kind": "opinfo", "a": O, "b": O}                     CSE keys (OperationInfo) of two test.op built
         from O = {"attrs": [[k, R]...], "props": [[k, R]...], "res": [R...]}
+  {"kind": "corpus", "file": relpath, "idx": i}          chunk i of a tests/**/*.mlir file parsed in two
+        fresh contexts (all dialects): every attribute/property/type of every op, pairwise
 Oracle (a, b, c range over the built values; key = vt.attrgen.attr_key):
   reflexive a == a, stable hash; symmetric; transitive; a == b => hash(a) == hash(b);
   key(a) == key(b) => a == b  (same parameters / same construction / same text);
@@ -36,7 +38,9 @@ RULE = ("triples of builtin attribute/type values from the C06 recipe strategy (
         "wrappers, reordered dictionaries, raw-bytes dense constructors); the same text (incl. "
         "unregistered dialect attributes/types, opaque syntax, dense_resource) parsed in two fresh "
         "contexts; OperationInfo keys of two test.op built from attribute/property/result-type "
-        "recipes. Oracle: reflexive, symmetric, transitive, eq => equal hash, equal attr_key => "
+        "recipes; every attribute/property/type of the ops of the repository's .mlir corpus (dialect "
+        "attributes), each chunk parsed in two fresh contexts, corresponding values compared and the "
+        "first 25 distinct values of a chunk compared pairwise. Oracle: reflexive, symmetric, transitive, eq => equal hash, equal attr_key => "
         "equal, observably different (printer distinguishes them or float bits differ) => unequal. "
         "Non-trivial: the pair is equal by construction (same recipe / same text / alternative "
         "path) or differs only in a float payload.")
@@ -558,6 +562,71 @@ def _zip_components(a, b):
 
 
 # ------------------------------------------------------------------------------------------------
+# corpus: dialect attributes, the same module text parsed in two fresh contexts
+def module_attrs(module):
+    out = []
+    for op in module.walk():
+        out += [op.attributes[k] for k in sorted(op.attributes)]
+        out += [op.properties[k] for k in sorted(op.properties)]
+        out += list(op.result_types)
+        for region in op.regions:
+            for block in region.blocks:
+                out += [arg.type for arg in block.args]
+    return out
+
+
+def run_corpus(h, recipe):
+    from vt import corpus
+    text = None
+    for rel, idx, t in corpus.chunks():
+        if rel == recipe["file"] and idx == recipe["idx"]:
+            text = t
+            break
+    if text is None:
+        _discard(h, "corpus_chunk_missing")
+        return
+    try:
+        with G.time_limit(60.0):
+            m1 = corpus.parse_chunk(text, verify=False)
+            m2 = corpus.parse_chunk(text, verify=False)
+    except G.ParseTimeout:
+        if _counting(h):
+            h.inconclusive("corpus_parse_timeout")
+        return
+    if m1 is None or m2 is None:
+        _discard(h, "corpus_chunk_rejected")
+        return
+    rep = Rep(h, recipe)
+    l1, l2 = module_attrs(m1), module_attrs(m2)
+    if len(l1) != len(l2):
+        h.mismatch({"check": "two_contexts_shape", "cls": "-", "value_class": "-", "parent": "-"},
+                   recipe, "the same text parsed twice yields different numbers of attributes")
+        return
+    seen, pool = set(), []
+    for a, b in zip(l1, l2):
+        try:
+            k = G.attr_key(a)
+            G.attr_key(b)
+        except TypeError as e:
+            if _counting(h):
+                h.count("corpus_unsupported_payload:" + str(e)[-40:])
+            continue
+        if k in seen:
+            continue
+        seen.add(k)
+        check_single(rep, a)
+        check_pair(rep, a, b, "two_contexts")
+        if len(pool) < 25:
+            pool.append(a)
+        if _counting(h):
+            h.count("corpus_attr:" + cname(a))
+    for i in range(len(pool)):
+        for j in range(i + 1, len(pool)):
+            check_pair(rep, pool[i], pool[j], None)
+    _case(h, recipe, bool(pool), "corpus")
+
+
+# ------------------------------------------------------------------------------------------------
 def run_tuple(h, recipe):
     pool, idx = recipe["pool"], recipe["idx"]
     rep = Rep(h, recipe)
@@ -594,6 +663,8 @@ def run_recipe(h, recipe):
         run_text2(h, recipe)
     elif kind == "opinfo":
         run_opinfo(h, recipe)
+    elif kind == "corpus":
+        run_corpus(h, recipe)
     else:
         raise AssertionError(kind)
 
@@ -755,6 +826,13 @@ def checks(h):
             idx += 1
             if idx % h.nshards == h.shard:
                 run_recipe(h, r)
+
+    # corpus slice of this shard (dialect attributes)
+    from vt import corpus
+    for i, (rel, cidx, text) in enumerate(corpus.chunks()):
+        if i % h.nshards != h.shard or len(text) > 30000:
+            continue
+        run_recipe(h, {"kind": "corpus", "file": rel, "idx": cidx})
 
     def body(r):
         run_recipe(h, r)
